@@ -11,9 +11,9 @@
      reachable p g x s k ls   ls is the loop state of a fresh run of g on x after k continuing supersteps
      pregel_inv ls         channels all empty, nothing running, frontier without duplicates and without END *)
 From Coq Require Import Permutation.
-From Eino Require Import Base.Util Model.Graph Model.Chain Model.ChainSpec Model.ChainCompile Proofs.Graph
+From Eino Require Import Base.Util Model.Graph Model.Chain Model.ChainSpec Model.ChainCompile Model.PregelOpts Proofs.Graph
   Proofs.PregelBase Proofs.Pregel Proofs.PregelRun Proofs.PregelNest Proofs.PregelTop
-  Proofs.PregelChainLower Proofs.PregelChain Proofs.PregelOrder Proofs.PregelChainCompile.
+  Proofs.PregelChainLower Proofs.PregelChain Proofs.PregelOrder Proofs.PregelChainCompile Proofs.PregelOpts.
 Open Scope N_scope.
 
 (* ---------- default step limit = number of nodes + 10 (graph.compile) ---------- *)
@@ -242,6 +242,24 @@ Theorem pregel_end_first_nested :
 Proof. exact pregel_nest_end_first. Qed.
 Print Assumptions pregel_end_first_nested.
 
+(* ---------- the call option WithRuntimeMaxSteps (Model/PregelOpts.v; applied by Corr/C01.v) ---------- *)
+(* called with the option n > 0 the graph shows at most n supersteps, whatever limit it was compiled with *)
+Theorem runtime_limit_bounds_root :
+  forall V St (ops : vops V) exec sched f F p g x s n,
+    pregel_graph g -> (0 < n)%nat ->
+    (own_entries V p (outcome_log V (fst (run_nest V St ops exec sched (S f) F p (rt_graph n g) x s))) <= S n)%nat.
+Proof. exact runtime_limit_bounds_lemma. Qed.
+Print Assumptions runtime_limit_bounds_root.
+
+(* the option reaches the called graph only: every nested graph of the forest keeps its own limit; and without
+   the option nothing changes *)
+Theorem runtime_limit_root_only :
+  forall n ds,
+    (forall i, nth_error (lower_forest (with_rtmax n ds)) (S i) = nth_error (lower_forest ds) (S i)) /\
+    with_rtmax 0 ds = ds.
+Proof. exact (fun n ds => conj (lower_with_rtmax_tail n ds) (with_rtmax_zero ds)). Qed.
+Print Assumptions runtime_limit_root_only.
+
 (* ---------- subgraph_is_function ---------- *)
 (* a graph run at a node path is the same graph run alone at the root (its lambdas being those found at that
    path); only the recorded paths differ, by the prefix. Every mode, every nesting depth. *)
@@ -401,6 +419,12 @@ Proof. eexists. eexists. split; vm_compute; reflexivity. Qed.
 (* with a limit of 3 the same run fails with the max-steps error after exactly 3 supersteps *)
 Example ex_cycle_limit :
   exists l, tree_run [] [ex_cycle 3] (VAtom 1) = Fail [mkerr eMaxSteps] l /\ own_entries value [] l = 4%nat.
+Proof. eexists. split; vm_compute; reflexivity. Qed.
+
+(* compiled without a limit (default 12) but called with WithRuntimeMaxSteps 3: max-steps after exactly 3 *)
+Example ex_cycle_runtime_limit :
+  exists l, tree_run [] (lower_forest (with_rtmax 3 [GGraph (ex_cycle 0)])) (VAtom 1) = Fail [mkerr eMaxSteps] l
+            /\ own_entries value [] l = 4%nat.
 Proof. eexists. split; vm_compute; reflexivity. Qed.
 
 (* a reachable state and a continuing step exist (hypotheses of pregel_frontier / pregel_consumed_once) *)
